@@ -16,6 +16,7 @@ type Opts struct {
 	Adversarial      bool // naming adversary (C04/C11/C12)
 	RootBias         bool // more providers without parameters (C05)
 	ErrBias          bool // more fallible providers (C06)
+	WideBias         bool // now and then a wide fan: many providers next to each other, one join (C03)
 	OnExclude        func(feature string)
 }
 
@@ -63,6 +64,7 @@ type gen struct {
 	bundle   map[TypeID][]TypeID // field type -> sibling field types and the struct type of its expansion
 	pending  map[TypeID]bool
 	roots    int // the first `roots` units take no provided inputs (fork), the last unit joins
+	wide     bool // fan shape: every inner unit takes at most one of the first supplied types, the last unit joins all
 }
 
 func (g *gen) allow(f string) bool {
@@ -515,6 +517,15 @@ func (g *gen) drawAsync(label string) bool {
 	if !g.allow("async") {
 		return false
 	}
+	if g.wide && g.o.AsyncMode != "none" {
+		// fan: the base units mostly stay on the calling thread, the fanned-out units mostly run in goroutines
+		if len(g.units) < 2 {
+			return rapid.Bool().Draw(g.rt, label+"-base0") && rapid.Bool().Draw(g.rt, label+"-base1") && rapid.Bool().Draw(g.rt, label+"-base2")
+		}
+		if !g.last {
+			return rapid.Bool().Draw(g.rt, label+"-fan0") || rapid.Bool().Draw(g.rt, label+"-fan1") || rapid.Bool().Draw(g.rt, label+"-fan2")
+		}
+	}
 	switch g.o.AsyncMode {
 	case "none":
 		return false
@@ -550,7 +561,11 @@ func Gen(rt *rapid.T, o Opts) *Case {
 		g.o.AsyncMode = rapid.SampledFrom([]string{"some", "some", "some", "all", "none"}).Draw(rt, "asyncmode")
 	}
 	nUnits := rapid.IntRange(o.MinProv, o.MaxProv).Draw(rt, "nprov")
-	if nUnits >= 3 {
+	if o.WideBias && rapid.IntRange(0, 99).Draw(rt, "wide") >= 72 {
+		g.wide = true
+		nUnits = rapid.IntRange(9, 16).Draw(rt, "nwide")
+		g.c.AddFeature("wide-fan")
+	} else if nUnits >= 3 {
 		g.roots = rapid.IntRange(0, min(5, nUnits-1)).Draw(rt, "roots")
 	}
 	for i := 0; i < nUnits; i++ {
@@ -625,11 +640,24 @@ func (g *gen) genUnit(i int) {
 	if g.last && nParams < 2 {
 		nParams = rapid.IntRange(2, 5).Draw(g.rt, "lastparams")
 	}
+	if g.wide {
+		if g.last {
+			nParams = 0
+			for _, s := range g.supplied {
+				if !g.consumed[s] {
+					nParams++
+				}
+			}
+			nParams = max(2, min(nParams, 10))
+		} else if nParams > 1 {
+			nParams = 1
+		}
+	}
 	rootUnit := i < g.roots
 	seen := map[TypeID]bool{}
 	for k := 0; k < nParams; k++ {
 		src := rapid.IntRange(0, 9).Draw(g.rt, "psrc")
-		if g.last && src >= 8 {
+		if g.last && (src >= 8 || g.wide) {
 			src = 0
 		}
 		if rootUnit && src <= 7 {
@@ -654,6 +682,15 @@ func (g *gen) genUnit(i int) {
 					continue
 				}
 				cands = append(cands, s)
+			}
+			if g.wide && !g.last {
+				// fan: inner units hang off the first two supplied types only
+				cands = nil
+				for k, s := range g.supplied {
+					if k < 2 && !(extForm && !g.isExtOrBasic(s)) {
+						cands = append(cands, s)
+					}
+				}
 			}
 			if len(cands) == 0 {
 				for _, s := range g.supplied {
